@@ -6,6 +6,9 @@ mod session;
 mod walk;
 mod rnd;
 mod random;
+mod exprs;
+mod cases;
+mod queries;
 
 use std::collections::HashMap;
 
@@ -51,6 +54,8 @@ fn main() {
     let code = match args.cmd.as_str() {
         "walk" => walk::main(&args),
         "random" => random::main(&args),
+        "exprs" => exprs::main(&args),
+        "queries" => queries::main(&args),
         other => {
             eprintln!("unknown command {}", other);
             2
